@@ -4,4 +4,5 @@ PROPERTY C15_OnlyValidAuth
 PROPERTY C15_FailedAuthKeepsIdentity
 PROPERTY C15_NoCrossReplay
 PROPERTY C14_RoleCheck
+PROPERTY C14_SessionRolesCurrent
 CHECK_DEADLOCK FALSE
